@@ -17,6 +17,19 @@
 (*            View(fn, mode, cap, rec), the count is within the capacity,  *)
 (*            the guard elements behind the caller's array are intact and  *)
 (*            the matching free function released every allocation.        *)
+(* Allocation-failure dimension (the legacy-parser part of C14): a line    *)
+(* with mut = "oom" is an allocation-failure sweep of ONE call on an       *)
+(* intact message: the call was repeated with exactly the n-th allocation  *)
+(* request of the call failing, n = 1, 2, ... ; every entry of calls has   *)
+(* oom |-> n and hit |-> 1 (the n-th request was made and failed) or 0     *)
+(* (the call made fewer than n requests: the failure-free run).  A call    *)
+(* with hit = 1 is explained iff                                           *)
+(*     status # SUCCESS  /\  nothing is returned                           *)
+(*  \/ status, items, hostent = View(fn, mode, cap, rec)   (proceeded      *)
+(*     correctly),                                                         *)
+(* and in both cases nothing stays allocated after the matching free       *)
+(* function and the guard elements are intact (OomLabels).  Never a        *)
+(* success with a partial result.  A call with hit = 0 is an ordinary call.*)
 (* A line that is not explained takes TDeviate, which prints the labelled  *)
 (* reasons (the violation signatures) and goes on, so that one run reports *)
 (* every deviation.  The trace is accepted iff every line was consumed and *)
@@ -70,7 +83,7 @@ CommonLabels(c) ==
   \cup (IF c.fn \in AddrFns /\ c.n > c.cap THEN {c.fn \o ".capacity_exceeded"} ELSE {})
   \cup (IF c.n = Len(c.items) \/ (c.fn \in AddrFns /\ c.n > c.cap) THEN {} ELSE {c.fn \o ".count_mismatch"})
 
-CallLabels(ev, c) ==
+PlainCallLabels(ev, c) ==
   CommonLabels(c) \cup
   IF ev.ok = 0
   THEN \* rejected by the record parser: must be reported as malformed, nothing returned
@@ -85,6 +98,47 @@ CallLabels(ev, c) ==
           \cup ItemLabels(c.fn, c, v)
           \cup HostLabels(c.fn, c, v, m)
 
+\* ---- exactly one allocation of the call failed (calls of a mut = "oom" line with hit = 1)
+Faulted(c) == "oom" \in DOMAIN c /\ c.hit = 1
+
+NoOutput(c) == c.items = <<>> /\ c.host.present = 0 /\ c.n = 0
+
+\* the result is a proper part of what View prescribes (silent truncation) rather than something else
+Partial(c, v) ==
+  \/ Len(c.items) < Len(v.items)
+  \/ /\ v.host.present = 1
+     /\ \/ c.host.present = 0
+        \/ Len(c.host.aliases) < Len(v.host.aliases)
+        \/ Len(c.host.addrs) < Len(v.host.addrs)
+
+\* distinguishing conditions of a leak under a failed allocation (part of the signature): how many blocks stay
+\* allocated, and whether the answer holds a NAPTR record with an empty character-string (flags / services / regexp)
+HasEmptyCharString(m) ==
+  \E i \in DOMAIN m.an : m.an[i].type = "NAPTR" /\ (m.an[i].flags = "" \/ m.an[i].svc = "" \/ m.an[i].re = "")
+
+NumStr(n) == IF n \in 0..9 THEN ToString(n) ELSE "many"
+
+OomLeakLabels(ev, c) ==
+  IF c.leak = 0 THEN {}
+  ELSE {"oom." \o c.fn \o ".leak_after_free." \o NumStr(c.leak) \o "_block"
+        \o (IF ev.ok = 1 /\ HasEmptyCharString(ev.rec) THEN ".message_with_empty_character_string" ELSE "")}
+
+OomLabels(ev, c) ==
+  LET P == "oom." \o c.fn IN
+  {"oom." \o x : x \in CommonLabels([c EXCEPT !.leak = 0])}    \* oom.<fn>.guard_overwritten, .capacity_exceeded ...
+  \cup OomLeakLabels(ev, c)
+  \cup
+  IF ev.ok = 0 THEN {"machinery.oom_sweep_on_rejected_message"}
+  ELSE LET v == View(c.fn, c.mode, c.cap, ev.rec)
+           asView == c.st = v.st /\ ItemLabels(c.fn, c, v) = {} /\ HostLabels(c.fn, c, v, ev.rec) = {}
+       IN IF asView \/ (c.st # "SUCCESS" /\ NoOutput(c)) THEN {}
+          ELSE IF c.st = "SUCCESS"
+               THEN {P \o (IF Partial(c, v) THEN ".success_with_partial_result" ELSE ".success_with_wrong_result")}
+          ELSE IF ~NoOutput(c) THEN {P \o ".error_status_with_output." \o c.st}
+          ELSE {P \o ".status." \o c.st \o "_for_" \o v.st}      \* cannot happen (kept total)
+
+CallLabels(ev, c) == IF Faulted(c) THEN OomLabels(ev, c) ELSE PlainCallLabels(ev, c)
+
 MsgLabels(ev) ==
   IF "src" \in DOMAIN ev
   THEN (IF ev.ok = 0 THEN {"machinery.generated_message_rejected"}
@@ -96,7 +150,8 @@ EvLabels(ev) ==
     [] ev.e = "end" -> (IF ev.live = 0 THEN {} ELSE {"leak.outstanding_allocations_at_exit"})
                        \cup (IF ev.lsan = 0 THEN {} ELSE {"leak.lsan_report"})
     \* the harness process was killed by a sanitizer while executing vector ev.id: no action explains it
-    [] ev.e = "crash" -> {"sanitizer." \o ev.sig}
+    [] ev.e = "crash" -> IF "fn" \in DOMAIN ev THEN {"oom." \o ev.fn \o ".sanitizer." \o ev.sig}   \* inside a sweep
+                         ELSE {"sanitizer." \o ev.sig}
     [] OTHER -> {"machinery.unknown_event"}
 
 \* per-call detail printed for a deviating line
